@@ -313,6 +313,37 @@ def cross_section(rnd, n, prefix="x"):
     return [session(rnd, i, prefix=prefix, n_calls=3) for i in range(n)]
 
 
+def redownload_sessions(rnd, n, prefix="rd"):
+    """A new program is downloaded to the controller between two uploads of the same driver object (or the driver is closed
+    and re-opened): same tag names, redefined structure behind the same template id, other instance ids."""
+    from ..projgen import redownload
+    out = []
+    for i in range(n):
+        fw, micro, ident = config(rnd, i)
+        proj, mem, b = gen_project(rnd, n_tags=4, programs=rnd.choice([0, 1]), junk=False, twin=True, wide=False)
+        p2, m2 = redownload(proj, mem, rnd)
+        reads = [R([("TwinTag", [])]), R([("TwinTag", []), ("a", [])]), R([("TwinTag", []), ("b", [])]), R([("TwinArr", [1]), ("n", [])]),
+                 R([("PlainD", [])]), R([("TwinArr", [0])], count=2), R([("TwinTag", []), ("u", [])])]
+        rnd.shuffle(reads)
+        rd = S.read_call(reads)
+        wr = S.write_call([R([("TwinTag", []), ("a", [])], value=rnd.randint(-1000, 1000)), R([("PlainD", [])], value=rnd.randint(0, 99)),
+                           R([("TwinArr", [1]), ("n", [])], value=rnd.randint(0, 30000))])
+        wr2 = S.write_call([R([("TwinTag", []), ("a", [])], value=1.5), R([("PlainD", [])], value=rnd.randint(0, 99)),
+                            R([("TwinArr", [1]), ("n", [])], value=rnd.randint(0, 30000))])
+        env = {"api": "_env", "intent": {"project": p2, "mem": m2}}
+        if i % 2 == 0:
+            again = [{"api": "get_tag_list", "program": "*", "view": 1, "intent": {"allprogs": 1}}]
+        else:
+            again = [{"api": "close"}, {"api": "open", "view": 1}]
+        calls = [{"api": "open", "view": 1}, rd, wr, rd, env] + again + [rd, wr2, rd, {"api": "close"}]
+        out.append({"id": "%s%d" % (prefix, i), "family": "logix-redownload" + ("-micro800" if micro else ""),
+                    "target": {"policy": rnd.choice(["LargeOK", "LargeRefused"]), "identity": ident},
+                    "project": proj, "mem": mem,
+                    "driver": {"kind": "logix", "path": "10.8.%d.%d" % (i % 200, rnd.randint(1, 250)), "route": [] if micro else [S.port_seg("bp", 0)],
+                               "init_program_tags": True}, "calls": calls})
+    return out
+
+
 def inject_sessions(rnd, n):
     """Tag services answered with an injected error status (C13)."""
     out = []
